@@ -282,3 +282,38 @@ Definition tobs (tab : list tspec) (r : trun) : option (string * list string) :=
   | None => None
   | Some sp => if Nat.eqb (tr_pos r) (List.length (t_events sp)) then Some (t_result sp, rev (tr_emitted r)) else None
   end.
+
+(* ------------------------------------------------------------------------------------ *)
+(* Instance 4 — shapes of shared mutable state that a refactoring of a compiled object can
+   introduce (the self mutation tests of notes/C09.md): each is a system in which a run WRITES
+   the shared store; Props/C09.v shows by a witness that a run then returns something it does
+   not return alone. *)
+
+(* (a) a buffer kept in the compiled object and reused by every run ("avoid an allocation"):
+   pc 0: clear the buffer and append the options of THIS call; pc 1: hand the buffer to the node *)
+Record brun : Type := { b_pc : N; b_opts : list N; b_seen : option (list N) }.
+
+Definition bstep_shared (buf : list N) (r : brun) : option (list N * brun) :=
+  if N.eqb (b_pc r) 0 then Some (b_opts r, {| b_pc := 1; b_opts := b_opts r; b_seen := None |})
+  else if N.eqb (b_pc r) 1 then Some (buf, {| b_pc := 2; b_opts := b_opts r; b_seen := Some buf |})
+  else None.
+
+(* (b) a per-call setting written into the compiled object (WithRuntimeMaxSteps stored in the
+   runner's options): a run with an override writes the limit, every run reads it.  This one
+   is wrong even without overlap: a LATER run inherits the limit of an earlier one. *)
+Record lrun : Type := { l_pc : N; l_override : option N; l_used : option N }.
+
+Definition lstep_sticky (limit : N) (r : lrun) : option (N * lrun) :=
+  if N.eqb (l_pc r) 0 then
+    Some (match l_override r with Some m => m | None => limit end,
+          {| l_pc := 1; l_override := l_override r; l_used := None |})
+  else if N.eqb (l_pc r) 1 then Some (limit, {| l_pc := 2; l_override := l_override r; l_used := Some limit |})
+  else None.
+
+(* the code as it is: the limit of the call is a local of the run *)
+Definition lstep_local (limit : N) (r : lrun) : option (N * lrun) :=
+  if N.eqb (l_pc r) 0 then Some (limit, {| l_pc := 1; l_override := l_override r; l_used := None |})
+  else if N.eqb (l_pc r) 1 then
+    Some (limit, {| l_pc := 2; l_override := l_override r;
+                    l_used := Some (match l_override r with Some m => m | None => limit end) |})
+  else None.
